@@ -49,6 +49,18 @@ func vLenVector(n int, variants int) []int {
 	if variants > 1 {
 		c = vChoice("lens", variants)
 	}
+	return vLenVectorOf(n, c)
+}
+
+// vLenVectorFor follows cfg.lenSet (explicit variants) when it is set, else cfg.lenVars.
+func vLenVectorFor(cfg *vHistCfg, n int) []int {
+	if len(cfg.lenSet) > 0 {
+		return vLenVectorOf(n, cfg.lenSet[vChoice("lens", len(cfg.lenSet))])
+	}
+	return vLenVector(n, cfg.lenVars)
+}
+
+func vLenVectorOf(n int, c int) []int {
 	out := make([]int, n)
 	for i := range out {
 		switch c {
@@ -62,6 +74,11 @@ func vLenVector(n int, variants int) []int {
 			out[i] = 1 + i%2
 			if i == n/2 {
 				out[i] = 130
+			}
+		case 5: // the smallest key is the empty key
+			out[i] = 1 + i%2
+			if i == 0 {
+				out[i] = 0
 			}
 		default:
 			out[i] = 2 - i%2
